@@ -3,6 +3,7 @@ from props import simcommon
 HARNESS = ["sim"]
 ASSUMPTIONS = ["transactions are tagged with harness serial numbers (byte identity through the proxies: C20; through wire/DB: C15)",
                "injected failures: the store write of a NEW event inside InsertEvent fails (self-events and received events alike); "
+               "writes of ProcessDecidedRounds (SetFrame, SetBlock, AddConsensusEvent) fail as well: after such a fault the node is no longer compared with the model (no such fault point there) but the implementation oracles go on; "
                "sync-limit truncation and lost responses come from the schedule"]
 def run(ctx):
     cov, findings, diffs = None, [], []
